@@ -61,6 +61,15 @@ Shape(i, s, o1, o2) ==
     [] i = 34 -> [rw |-> In(<<This, CU("a")>>), restr |-> <<Ty("user"), Ty("grp"), Us("grp", "a")>>]   \* the FIRST operand reaches more types, and deeper, than a later one
     [] i = 35 -> [rw |-> Un(<<This, TTU(s, "p"), TTU(s, o1)>>), restr |-> <<Ty("user")>>]        \* recursion through two tuplesets: parallel TTU edges inside a cycle
     [] i = 36 -> [rw |-> This, restr |-> <<Ty("doc")>>]                                          \* (a second tupleset with parent doc)
+    \* operators of one kind at the same depth (2 below the root) and the same operand position under different parents, whose operands reach
+    \* DIFFERENT user types (o1 taking shape 39 reaches grp only): whether the two are told apart decides the verdict, in both directions
+    [] i = 37 -> [rw |-> In(<<In(<<This, Un(<<CU("a"), CU("a")>>)>>), In(<<Un(<<CU("a"), CU(o1)>>), Un(<<CU(o1), CU(o1)>>)>>)>>), restr |-> <<Ty("user"), Ty("grp")>>]
+    [] i = 38 -> [rw |-> In(<<Un(<<This, In(<<CU("a"), CU("a")>>)>>), Un(<<CU("a"), In(<<CU(o1), CU(o1)>>)>>)>>), restr |-> <<Ty("user")>>]
+    [] i = 39 -> [rw |-> This, restr |-> <<Ty("grp")>>]
+    [] i = 40 -> [rw |-> This, restr |-> <<Ty("doc"), Ty("ghost")>>]                              \* a tupleset (for shape 31 / 32) that admits a type the model does not declare
+    [] i = 41 -> [rw |-> Un(<<This, TTU("a", o1)>>), restr |-> <<Ty("ghost")>>]                   \* ... and a direct restriction to it
+    [] i = 42 -> [rw |-> This, restr |-> <<Us("doc", o1), Us("doc", o2)>>]                        \* two usersets: a cycle member with a way out
+    [] i = 43 -> [rw |-> In(<<This, CU("a")>>), restr |-> <<Ty("grp")>>]                          \* no common user type (reached from inside an open cycle when 42 points here)
     [] i = 23 -> [rw |-> Un(<<TTU("a", "q"), This>>), restr |-> <<TyC("user", "c"), Ty("user"), Wi("user")>>]
 
 FreeNames == IF NFree = 2 THEN <<"x", "y">> ELSE <<"x", "y", "z">>
